@@ -773,7 +773,7 @@ int main(int argc, char** argv) {
         if (vh::ctx().violations.size() > before && gLastFailPathErrOnly) vh::ctx().violations.back()["key"] = "stale-path-error";
     };
     run("sequences", a.cases, 14.0, false);
-    run("big", a.num("big", 0), 40.0, true);
+    run("big", a.num("big", 0), (double)a.num("bigscale", 40), true);
     st.count("known: stale path error states tolerated in total", known);
     if (known && !a.num("silent-known", 0)) {
         // one keyed record so that the runner can print KNOWN-FINDING (or VIOLATION if the key is not listed)
